@@ -65,6 +65,36 @@ class PropertyCheck:
     def rule(self):
         return ""
 
+    # ---- the shared zoo -------------------------------------------------------
+    # every check of a library property also compares model and implementation byte for byte on drawings composed
+    # by the shared feature generator (gen.zoo): a change of behaviour anywhere in the pipeline shows up here even
+    # when the property's own generators do not reach it
+    zoo = True
+
+    def zoo_correspondence(self, n):
+        import backend
+        import gen
+        from common import hx
+        cases = []
+        for _ in range(n):
+            t = gen.zoo(self.rng)
+            if self.rng.chance(1, 2):
+                cases.append((t, backend.Settings(), self.rng.choice(["to_svg", "compressed"])))
+            else:
+                cases.append((t, backend.Settings(scale=self.rng.choice([8, 1, 0.5, 10]), b=self.rng.chance(1, 2),
+                                                  s=self.rng.chance(1, 2), d=self.rng.chance(1, 2)), "settings"))
+        dis = []
+        for c, r in zip(cases, backend.run_full(cases)):
+            self.evaluations += 1
+            cmp = backend.compare_outputs(r["impl"], r["model"])
+            if cmp == "float":
+                self.count("inexact_float")
+            if cmp == "different":
+                dis.append(Disagreement("L3 full pipeline bytes (zoo)", {"input": c[0], "input_hex": hx(c[0]), "entry": str(c[2])},
+                                        str(backend.first_difference(r["impl"], r["model"]))[:600], ""))
+        self.count("zoo_cases", len(cases))
+        return dis
+
     # ---- helpers --------------------------------------------------------------
     # thorough-tier multiplier for case counts (values of 2000 and more are counts in every check)
     thorough_mult = 1
@@ -166,6 +196,8 @@ def run_check(check_cls, argv):
             try:
                 if ok:
                     disagreements = chk.correspondence()
+                    if chk.zoo:
+                        disagreements = list(disagreements) + chk.zoo_correspondence(chk.scale(120, 2000))
                 boost = 4 if (broken or disagreements) else 1
                 failures = chk.search(boost=boost)
                 # differences between the model side and the implementation noticed while searching
